@@ -1090,6 +1090,15 @@ pub fn c19(rec: &mut Rec, lm: &Landmarks, rng: &mut Rng, thorough: bool) {
                     v.push(format!("{d}{glue}{t} %T"));
                     v.push(format!("{t}{glue}{d}"));
                 }
+                // a name as the last token of the format (the text ends in a letter), one or two separators before it
+                if !d.contains("%A") && !d.contains("%a") {
+                    v.push(format!("{d} {t} %A"));
+                    v.push(format!("{d} {t}, %a"));
+                }
+                if d == "%Y-%m-%d" {
+                    v.push(format!("%Y %d {t} %B"));
+                    v.push(format!("%d %Y {t}, %b"));
+                }
             }
         }
         v
@@ -1141,6 +1150,8 @@ pub fn c19(rec: &mut Rec, lm: &Landmarks, rng: &mut Rng, thorough: bool) {
                     v.push(format!("{d}{glue}{t}%z"));
                     v.push(format!("{d}{glue}{t} %z"));
                     v.push(format!("{d}{glue}{t}%z %T"));
+                    v.push(format!("{d}{glue}{t}, %z"));
+                    v.push(format!("{d}{glue}{t} %z, %T"));
                 }
             }
         }
